@@ -104,12 +104,21 @@ func (cl *ClientLimiter) gcLoop() {
 }
 
 func (cl *ClientLimiter) gc() {
-	ddl := time.Now().Add(-entryTtl)
+	cl.gcAt(time.Now())
+}
+
+// gcAt drops the entries that are idle and whose bucket has refilled completely at now.
+// Forgetting such an entry loses nothing: the bucket created at the client's next
+// query is full as well. (An idle entry that has not refilled yet must be kept,
+// otherwise a client with burst > entryTtl*limit gets a second burst after a minute.)
+func (cl *ClientLimiter) gcAt(now time.Time) {
+	ddl := now.Add(-entryTtl)
 	cl.m.Range(func(key netip.Addr, value *e) bool {
 		value.m.Lock()
-		lastSeen := value.lastSeen
+		idle := value.lastSeen.Before(ddl)
+		full := value.l.TokensAt(now) >= float64(cl.opts.Burst)
 		value.m.Unlock()
-		if lastSeen.Before(ddl) {
+		if idle && full {
 			cl.m.Delete(key)
 		}
 		return true
